@@ -483,11 +483,13 @@ Definition obs_equiv {S} (P : StorableSpec S) (x y : obs S) : Prop :=
 (* ------------------------------------------------------------------------ *)
 (* 5. instances                                                              *)
 
-(* node ids are uint64 *)
-Definition u64id : Type := { n : N | (n <? two64) = true }.
+(* node ids are uint64.  The bound is written with the bit length so that its
+   normal form on a variable stays small (n <? 2^64 unfolds to 3^64 cases). *)
+Definition fits64 (n : N) : bool := Nat.leb (N.size_nat n) 64.
+Definition u64id : Type := { n : N | fits64 n = true }.
 Definition u64_val (i : u64id) : N := proj1_sig i.
 Definition mk_u64 (n : N) : option u64id :=
-  match bool_dec (n <? two64) true with
+  match bool_dec (fits64 n) true with
   | left H => Some (exist _ n H)
   | right _ => None
   end.
